@@ -1,4 +1,2 @@
-(* C16 -- proofs (placeholder while the harness is brought up) *)
-From PV Require Import C16.Spec.
-Lemma placeholder : code_now = mkVariant false true.
-Proof. reflexivity. Qed.
+(* C16 -- all proofs *)
+From PV Require Export C16.Lib C16.ProofsErr C16.ProofsFresh.
